@@ -16,6 +16,13 @@
    internal subset holding every kind of declaration (general / parameter / external / unparsed entities, ELEMENT /
    ATTLIST / NOTATION, comments and PIs -- which become nodes under the Root), CR in markup whitespace:
    parse_render_sem_full_s5 and prolog_insensitive_full_s5 (same meaning => same tree, whatever the prolog).
+   THE CAPSTONE (Spec/CstFullS6.v): S4's entities (character data or markup with qualified names, resolved at the place
+   of reference) inside S5's prolog, CR in markup whitespace everywhere -- ONE statement for the whole supported subset:
+   parse_render_sem_full_s6; same meaning => same tree whatever the distribution over entities, the prolog and the layout
+   (hoist_prolog_insensitive_full_s6); S4 and S5 embed with the same rendering and meaning (s4_in_s6, s5_in_s6), hence
+   so do S1..S3.  What S6 still excludes is listed in the spec files: CR inside comment / PI bodies, '>' inside a literal of
+   a skipped markup declaration, '%' and character references to TAB / LF / CR / '&' / '<' inside entity literals, colons
+   in DOCTYPE / entity names, the CR LF proviso and D15.
    Statements are pinned here (copied verbatim from the proof files by tools/pin_props.py);
    each is re-proved by `exact` and followed by Print Assumptions. *)
 From Coq Require Import Ascii String.
@@ -26,7 +33,8 @@ From RX.Model Require Import Base CharClass Stream Tokenizer Doc Builder Parse A
 From RX.Spec Require Cst.
 From RX.Spec Require CstU CstNs CstFull CstFullS5.
 From RX.Proofs Require Import LexerProofs RejectProofs CstMain CstUMain.
-From RX.Proofs Require CstNsView CstFullMain CstFullS5.
+From RX.Proofs Require CstNsView CstFullMain CstFullS5 CstFullS6Main CstFullS6Embed5.
+From RX.Spec Require CstFullS4 CstFullS6.
 Open Scope N_scope.
 
 (* ---- Proofs/CstMain.v ---- *)
@@ -82,8 +90,57 @@ Theorem C03_layout_insensitive_u :
 Proof. exact layout_insensitive_u. Qed.
 Print Assumptions C03_layout_insensitive_u.
 
-(* ---- Proofs/CstFullS5.v ---- *)
+(* ---- Proofs/CstFullS6Main.v ---- *)
 Module G2.
+Import RX.Spec.CstFull. Import RX.Spec.CstFullS4. Import RX.Spec.CstFullS6. Import RX.Proofs.CstNsView. Import RX.Proofs.CstFullS6Main.
+Theorem C03_parse_render_sem_full_s6 :
+  forall (d : S6.doc) (opt : options),
+  S6.wf_doc d = true ->
+  (S6.has_dtd d = true -> allow_dtd opt = true) ->                (* a DOCTYPE needs the option *)
+  N.of_nat (length (S6.sem d)) < nodes_limit opt ->               (* room for all nodes + the Root *)
+  N.of_nat (length (S6.sem d)) < u32_max ->                        (* of the MEANING: entities add nodes *)
+  N.of_nat (S6.nattrs d) < u32_max ->                              (* the attribute rows of the meaning *)
+  S6.distinct_decls_le d (N.to_nat 65535) ->                       (* at most 65535 distinct declared bindings *)
+  1 + N.of_nat (S6.ns_cost d) <= u32_max ->                        (* the namespace table fits *)
+  exists doc, parse (S6.render d) opt = Ok doc /\ view (S6.render d) doc = Some (S6.sem d).
+Proof. exact parse_render_sem_full_s6. Qed.
+Print Assumptions C03_parse_render_sem_full_s6.
+
+Theorem C03_hoist_prolog_insensitive_full_s6 :
+  forall (d1 d2 : S6.doc) opt,
+  S6.wf_doc d1 = true -> S6.wf_doc d2 = true -> allow_dtd opt = true -> S6.sem d1 = S6.sem d2 ->
+  N.of_nat (length (S6.sem d1)) < nodes_limit opt -> N.of_nat (length (S6.sem d1)) < u32_max ->
+  N.of_nat (S6.nattrs d1) < u32_max ->
+  S6.distinct_decls_le d1 (N.to_nat 65535) -> S6.distinct_decls_le d2 (N.to_nat 65535) ->
+  1 + N.of_nat (S6.ns_cost d1) <= u32_max -> 1 + N.of_nat (S6.ns_cost d2) <= u32_max ->
+  exists x1 x2, parse (S6.render d1) opt = Ok x1 /\ parse (S6.render d2) opt = Ok x2 /\
+                view (S6.render d1) x1 = view (S6.render d2) x2.
+Proof. exact hoist_prolog_insensitive_full_s6. Qed.
+Print Assumptions C03_hoist_prolog_insensitive_full_s6.
+
+Theorem C03_s4_in_s6 :
+  forall d : S4.doc, S4.wf_doc d = true ->
+  S6.wf_doc (S6.of_s4 d) = true /\ S6.render (S6.of_s4 d) = S4.render d /\ S6.sem (S6.of_s4 d) = S4.sem d /\
+  S6.has_dtd (S6.of_s4 d) = true.
+Proof. exact s4_in_s6. Qed.
+Print Assumptions C03_s4_in_s6.
+
+End G2.
+
+(* ---- Proofs/CstFullS6Embed5.v ---- *)
+Module G3.
+Import RX.Spec.CstFull. Import RX.Spec.CstFullS5. Import RX.Spec.CstFullS6. Import RX.Proofs.CstFullS6Main. Import RX.Proofs.CstFullS6Embed5.
+Theorem C03_s5_in_s6 :
+  forall d : S5.doc, S5.wf_doc d = true ->
+  S6.wf_doc (S6.of_s5 d) = true /\ S6.render (S6.of_s5 d) = S5.render d /\ S6.sem (S6.of_s5 d) = S5.sem d /\
+  S6.has_dtd (S6.of_s5 d) = S5.has_dtd d.
+Proof. exact s5_in_s6. Qed.
+Print Assumptions C03_s5_in_s6.
+
+End G3.
+
+(* ---- Proofs/CstFullS5.v ---- *)
+Module G4.
 Import RX.Spec.CstFull. Import RX.Spec.CstFullS5. Import RX.Proofs.CstNsView. Import RX.Proofs.CstFullMain. Import RX.Proofs.CstFullS5.
 Theorem C03_parse_render_sem_full_s5 :
   forall (d : S5.doc) (opt : options),
@@ -109,10 +166,10 @@ Theorem C03_prolog_insensitive_full_s5 :
 Proof. exact prolog_insensitive_full_s5. Qed.
 Print Assumptions C03_prolog_insensitive_full_s5.
 
-End G2.
+End G4.
 
 (* ---- Proofs/LexerProofs.v ---- *)
-Module G3.
+Module G5.
 Local Notation token := Tokenizer.token.
 Theorem C03_parse_comment_post :
   forall (text : bytes), forall s acc s' acc', SInv text s ->
@@ -199,10 +256,10 @@ Theorem C03_parse_element_tokens :
 Proof. exact parse_element_tokens. Qed.
 Print Assumptions C03_parse_element_tokens.
 
-End G3.
+End G5.
 
 (* ---- Proofs/RejectProofs.v ---- *)
-Module G4.
+Module G6.
 Local Notation token := Tokenizer.token.
 Theorem C03_ok_document_shape :
   forall text dtd toks,
@@ -223,4 +280,4 @@ Theorem C03_ok_no_text_before_root :
 Proof. exact ok_no_text_before_root. Qed.
 Print Assumptions C03_ok_no_text_before_root.
 
-End G4.
+End G6.
